@@ -14,7 +14,7 @@ PYT = {"int": "int", "str": "str", "listint": "list[int]", "free": "positive num
 MOD = "recmod"
 
 
-def docstring(style, params, res, res2=None, res3=None) -> str:
+def docstring(style, params, res, res2=None, res3=None, unnamed=False) -> str:
     L = ['    """Summary line.', ""]
     if style == "NUMPYDOC":
         if params:
@@ -24,7 +24,8 @@ def docstring(style, params, res, res2=None, res3=None) -> str:
                 L.append(f"        Parameter {k + 1}.")
             L.append("")
         if res2 is not None and res2["hint"] != "absent":
-            L += ["    Returns", "    -------", f"    r1 : {PYT[res['doc']]}", "        First result.", f"    r2 : {PYT[res2['doc']]}", "        Second result."]
+            n1, n2 = ("", "") if unnamed else ("r1 : ", "r2 : ")
+            L += ["    Returns", "    -------", f"    {n1}{PYT[res['doc']]}", "        First result.", f"    {n2}{PYT[res2['doc']]}", "        Second result."]
             if res3 is not None and res3["doc"] != "absent":
                 L += [f"    r3 : {PYT[res3['doc']]}", "        Third result, known from the docstring only."]
             L.append("")
@@ -51,14 +52,14 @@ def docstring(style, params, res, res2=None, res3=None) -> str:
 
 def concretise(style, shapes) -> str:
     out = ["from __future__ import annotations", ""]
-    for idx, (params, res, res2, res3) in enumerate(shapes):
+    for idx, (params, res, res2, res3, unnamed) in enumerate(shapes):
         two = res2["hint"] != "absent"
         if two and style != "NUMPYDOC":
             out.append(f"def f{idx}() -> int:\n    ...\n\n")          # placeholder: two-result shapes exist for NumPy style only
             continue
         ps = ", ".join(f"p{k + 1}" + (f": {PYT[p['hint']]}" if p["hint"] != "none" else "") for k, p in enumerate(params))
         ret = f" -> tuple[{PYT[res['hint']]}, {PYT[res2['hint']]}]" if two else (f" -> {PYT[res['hint']]}" if res["hint"] != "none" else "")
-        out.append(f"def f{idx}({ps}){ret}:\n{docstring(style, params, res, res2, res3)}\n    ...\n\n")
+        out.append(f"def f{idx}({ps}){ret}:\n{docstring(style, params, res, res2, res3, unnamed)}\n    ...\n\n")
     return "\n".join(out)
 
 
@@ -66,7 +67,7 @@ def main(v: Verdict) -> None:
     scs = generate(v, "Reconcile", "C14_MC.cfg", min_records=1000)
     if not scs:
         return
-    shapes_key = sorted({json.dumps([sc["params"], sc["res"], sc["res2"], sc["res3"]], sort_keys=True) for sc in scs})
+    shapes_key = sorted({json.dumps([sc["params"], sc["res"], sc["res2"], sc["res3"], sc["unnamed"]], sort_keys=True) for sc in scs})
     shapes = [tuple(json.loads(k)) for k in shapes_key]
     index = {k: i for i, k in enumerate(shapes_key)}
     jobs, meta = [], []
@@ -98,7 +99,7 @@ def main(v: Verdict) -> None:
         if key not in by:
             continue
         r, stubs, counts = by[key]
-        idx = index[json.dumps([sc["params"], sc["res"], sc["res2"], sc["res3"]], sort_keys=True)]
+        idx = index[json.dumps([sc["params"], sc["res"], sc["res2"], sc["res3"], sc["unnamed"]], sort_keys=True)]
         tops = stubs.top(f"f{idx}")
         if len(tops) != 1 or tops[0][1].kind != "fun":
             o = {"missing": True, "ptys": [], "rtys": [], "nwarn": 0}
@@ -114,14 +115,14 @@ def main(v: Verdict) -> None:
                 da = sha(json.dumps(sorted(a[0].files.items())))
                 db = sha(json.dumps(sorted(b[0].files.items())))
                 obs.append({"id": f"pair-{style}-{pref}", "kind": "pair",
-                            "sc": {"params": [], "res": {"hint": "none", "doc": "none"}, "res2": {"hint": "absent", "doc": "absent"}, "res3": {"hint": "absent", "doc": "absent"}, "style": style, "pref": pref, "warn": "WARN"},
+                            "sc": {"params": [], "res": {"hint": "none", "doc": "none"}, "res2": {"hint": "absent", "doc": "absent"}, "res3": {"hint": "absent", "doc": "absent"}, "unnamed": False, "style": style, "pref": pref, "warn": "WARN"},
                             "obs": {"a": da, "b": db}})
     bad = judge(v, "C14_Trace", obs)
     by_id = {o["id"]: o for o in obs}
     for b in bad:
         o = by_id.get(b.get("subject"))
         if o and o["kind"] == "fn":
-            b["python"] = concretise(o["sc"]["style"], [(o["sc"]["params"], o["sc"]["res"], o["sc"]["res2"], o["sc"]["res3"])])
+            b["python"] = concretise(o["sc"]["style"], [(o["sc"]["params"], o["sc"]["res"], o["sc"]["res2"], o["sc"]["res3"], o["sc"]["unnamed"])])
             b["options"] = {k: o["sc"][k] for k in ("style", "pref", "warn")}
     v.add_bad(bad)
     v.samples = [{"scenario": o["sc"], "observed": o["obs"]} for o in obs[:: max(1, len(obs) // 3)]][:3]
